@@ -1,5 +1,5 @@
 CFG = {
-    "modules": ["Parsley.Props.C14", "Parsley.Props.C14Spelled", "Parsley.Props.C14Filtered"],
+    "modules": ["Parsley.Props.C14", "Parsley.Props.C14Spelled", "Parsley.Props.C14Filtered", "Parsley.Props.C14Dyn"],
     "theorems": [
         "Parsley.C14.objstm_roundtrip", "Parsley.C14.objstm_accepted_wellformed", "Parsley.C14.objstm_never_panics",
         "Parsley.C14.objstm_rejects_order", "Parsley.C14.objstm_rejects_short", "Parsley.C14.first_beyond_rejected",
@@ -24,18 +24,30 @@ CFG = {
         "Parsley.C14.objstm_filtered_accepted_wellformed", "Parsley.C14.first_beyond_rejected_filtered", "Parsley.C14.exChain",
         # sweep: ParmsOf widened - /Columns (like /Colors, /BitsPerComponent) may be absent when it is the default 1
         "Parsley.C14.ext_post_spelled", "Parsley.C14.exParms1_of",
+        # C06e tidy-up (Props/C14Dyn.lean): Flate layers over C06's spec encoder for ALL THREE block types (LayerEnc.flateDyn), without and
+        # with a predictor; a concrete object stream behind a dynamic-Huffman block (= corpus/C14/dynamic.case); cut / damaged Flate layers
+        # of EVERY accepted zlib stream are rejected with the context unchanged (from C06.inflate_truncation_rejected)
+        "Parsley.C14.stmLayer_flateDyn", "Parsley.C14.StmLayer.predDyn", "Parsley.C14.dynPlan_ok", "Parsley.C14.dynZ_eq",
+        "Parsley.C14.dynChain", "Parsley.C14.objstm_truncated_flate_rejects", "Parsley.C14.objstm_flate_trailer_rejects",
+        "Parsley.C14.objstm_truncated_dyn_rejects",
     ],
     "partial": {
-        "(filters: Huffman-coded Flate)": "closed by C14c for the loader's decoders (objstm_roundtrip_filtered: ASCIIHex, ASCII85, Flate over stored blocks and "
-            "over C06's fixed-Huffman encoder, Flate + TIFF/PNG predictor, chains of any length). Still a hypothesis, not a theorem: a zlib stream with "
-            "DYNAMIC Huffman blocks enters only through C06.LayerEnc.flateAny / StmLayer.pred (the modelled inflate's verdict on it is assumed; tie to the "
-            "real zlib = correspondence runs of C06 and of this check on generated streams); DCTDecode is opaque (the loader's stub fails); "
-            "/Predictor 15 with mixed per-row filter types is outside C07's predictor_roundtrip",
+        "(filters: foreign zlib encoders, DCT, /Predictor 15 mixed rows)": "the filter clause is closed for the loader's decoders (objstm_roundtrip_filtered: ASCIIHex, "
+            "ASCII85, Flate + TIFF/PNG predictor, chains of any length) and for Flate over EVERY stream C06's specification encoders write: stored blocks, "
+            "fixed-Huffman blocks and - since C06d, through C06.LayerEnc.flateDyn / C06.inflate_dynamic_roundtrip - DYNAMIC-Huffman blocks and any mixture of the "
+            "three, from any valid plan (stmLayer_flateDyn, StmLayer.predDyn in Props/C14Dyn.lean; StmLayer.plain takes any C06.LayerEnc and layerEnc_known / "
+            "stmChain_of_chainEnc / stmLayer_decodes are written with `cases h <;> first | ..`, so the new constructor needed no change; concrete instance dynChain = "
+            "corpus/C14/dynamic.case, run through the real parser). The rejection side now covers every cut of, and every altered Adler-32 byte in, ANY zlib stream the "
+            "decoder accepts, at any depth of the chain (objstm_truncated_flate_rejects, objstm_flate_trailer_rejects, from C06.inflate_truncation_rejected). Still a "
+            "hypothesis, not a theorem: a zlib stream written by an encoder OTHER than the specification's (e.g. the real zlib's own choice of codes and matches) enters "
+            "through C06.LayerEnc.flateAny / StmLayer.pred - the modelled inflate's verdict on it is assumed; tie to the real zlib = correspondence runs of C06 (real zlib "
+            "output at levels 0-9) and of this check; DCTDecode is opaque (the loader's stub fails); /Predictor 15 with mixed per-row filter types is outside C07's "
+            "predictor_roundtrip",
     },
     "n": {"quick": 4000, "thorough": 250000},
     "exhaustive": {"quick": False, "thorough": True},
     "shrink": False,
-    "rule": "corpus (defect #17 input, the unit-test fixtures, one case per rejection rule, huge numbers, comments.case: the concrete instance of objstm_spelled_roundtrip and headers with comments in every run, accepted and rejected; filtered.case: the concrete instance of objstm_roundtrip_encoded - hex over Flate + PNG Up - and the two concrete corrupt-layer rejections) + exhaustive small space: every content over "
+    "rule": "corpus (defect #17 input, the unit-test fixtures, one case per rejection rule, huge numbers, comments.case: the concrete instance of objstm_spelled_roundtrip and headers with comments in every run, accepted and rejected; filtered.case: the concrete instance of objstm_roundtrip_encoded - hex over Flate + PNG Up - and the two concrete corrupt-layer rejections; dynamic.case: the concrete instance of Props/C14Dyn.lean - the same members behind ONE dynamic-Huffman zlib block with a hand-written header - accepted, and cut in the Huffman-coded data / one byte before the end of the trailer / with an altered Adler-32 byte: rejected) + exhaustive small space: every content over "
             "{1,2,blank,x} and every content over {1,blank,%,LF} containing % or LF (comments with and without a terminating LF before an offset), of length <= 4 (thorough: <= 5), x every offset pair (o0,o1) in [0,len+1]^2 under a 2-pair header (quick: every 3rd), judged "
             "by a small digit reader that looks only at the bytes from the declared offset on + random streams: 1..6 members with values from the C02 generator spelled by the C02 encoder, ids incl. "
             "2^32 and 2^63-1, three gap styles (contiguous as the unit tests / white space / arbitrary non-object bytes incl. unbalanced delimiters, "
@@ -100,6 +112,8 @@ LEVEL = {
             "filtered rows, chains of any length and order - yields exactly (id_k, 0, value_k) in header order, binding exactly these. Rejection side: if the chain's decoder "
             "fails (objstm_filter_error_rejects), in particular behind correctly encoded outer layers at a layer corrupted as in C06's corrupt_is_error or naming an "
             "unsupported filter (objstm_corrupt_layer_rejects), or if StreamT::filters refuses the /Filter x /DecodeParms pairing, the parser returns an error and the "
-            "context UNCHANGED (no member defined); no panic with these decoders (objstm_never_panics_loader). Dynamic-Huffman zlib streams enter as a hypothesis on the "
-            "modelled inflate only.",
+            "context UNCHANGED (no member defined); no panic with these decoders (objstm_never_panics_loader). Flate layers written by C06's specification encoders - stored, fixed-Huffman and DYNAMIC-Huffman "
+            "blocks in any mixture - are theorems (stmLayer_flateDyn, StmLayer.predDyn; concrete stream dynChain); a cut anywhere before the end of the Adler-32 trailer of ANY "
+            "accepted zlib stream, or an altered trailer byte, at any depth of the chain rejects the object stream with the context unchanged "
+            "(objstm_truncated_flate_rejects, objstm_flate_trailer_rejects). Zlib streams of OTHER encoders enter as a hypothesis on the modelled inflate only.",
 }
